@@ -81,6 +81,7 @@ def supportedB (s : Sig) (b : Base) : Bool :=
   && (!s.quirks .zeroTs1 || s.layout.contains 8)
   && (!s.quirks .nzTs2 || (s.layout.contains 8 && impTcpType s b == F_SYN))
   && s.layout == body ++ (if ends then [0] else [])
+  && decide (s.olen ≤ 40) && decide (layoutLenB body + (if ends then 1 + s.eolPad else 0) ≤ 40)
 
 /-- admissible base packet, as a Boolean (see `Admissible`) -/
 def admissibleB (b : Base) : Bool :=
